@@ -26,7 +26,11 @@ prop("C02",
                   "minimal order that fits one real sinusoid (over-fitted models of a nearly noiseless sinusoid place spurious "
                   "poles anywhere: estimator behaviour, not a misplaced axis)",
                   "periodogram tone clause uses the six windows whose main lobe is not flat (hann, hamming, rectangular, "
-                  "blackman, kaiser, bartlett) and NFFT <= 3N"],
+                  "blackman, kaiser, bartlett) and NFFT <= 3N",
+                  "ARMA tone clause needs lag >= Q + P (the AR part is fitted to lag - Q equations; with lag = Q it is exactly zero "
+                  "and the model is the exempt MA model: thorough tier, seed 6, found a broad MA peak two bins off); modified "
+                  "covariance tone clause asserted for orders up to 0.58 N (complex data: 2(N-p) equations; at p -> 2N/3 the fit "
+                  "interpolates the noise and a spurious peak can win, 1 case in 1e5)"],
      title="Every estimator puts spectral values on the frequency axis it reports")
 
 ROWS = est.ROWS
@@ -127,6 +131,15 @@ def ctone_case(draw):
         p = {"IP": IP, "NSIG": 1}
     else:
         p = draw(est.params(row, N, True))
+        if row == "parma":
+            # the AR part is fitted to the lag - Q modified Yule-Walker equations: with fewer than P of them (lag = Q: none,
+            # the AR part is exactly 0) the model is an MA model, which the statement exempts from the tone clause
+            p["lag"] = max(p["lag"], p["Q"] + p["P"])
+        if row == "pmodcovar" and N <= 64 and draw(st.integers(0, 3)) == 3:
+            # forward and backward equations: 2(N-p) of them for p unknowns, so the fit is over-determined up to p < 2N/3
+            # (the tone clause is asserted up to 0.58 N: closer to 2N/3 the fit nearly interpolates the noise and a spurious
+            # peak can exceed the line -- 1 case in 1e5 at p = 27, N = 41 -- which is estimator behaviour, not a defect)
+            p = {"order": draw(st.integers(N // 2 + 1, max(N // 2 + 1, int(0.58 * N))))}
     nfft = max(nfft, est.min_nfft(row, N, p))
     k = draw(st.integers(-((nfft - 1) // 2), nfft // 2))
     return {"row": row, "n": N, "nfft": nfft, "k": k, "params": p,
